@@ -632,6 +632,12 @@ def _mkspace(api, grid, kind, variant):
     seg = [segs[-1]]
     base = {"P1": ("P", 1), "DP0": ("DP", 0), "DP1": ("DP", 1), "RWG": ("RWG", 0), "SNC": ("SNC", 0)}[kind]
     if variant == "whole":
+        # whole-grid scalar spaces carry PARTIALLY swapped normals whenever the grid has two domain indices (dense and FMM
+        # get the very same space): mixed normal multipliers cost nothing and exercise the normal arrays of the FMM
+        # evaluators (seeded change C17-c laid the multipliers out point-major next to element-major normals); spaces
+        # with all multipliers +1 remain in the segment / barycentric variants
+        if len(segs) > 1 and kind in ("P1", "DP0", "DP1"):
+            return api.function_space(grid, *base, swapped_normals=[segs[0]])
         return api.function_space(grid, *base)
     if variant == "segment":
         kw = dict(segments=seg)
